@@ -103,6 +103,30 @@ def fallible_pred(prog, fn, e):
     return None
 
 
+def mmap_escape_rule(prog, chk, rule, units, floor=1):
+    """MAP_FAILED never escapes as a pointer: on every path on which a function returns the result of an mmap() call, a branch
+    fact has established result != (void *) -1. (The callers test for NULL.)"""
+    n = 0
+    for fn in sorted(prog.functions(), key=lambda f: (f.unit, f.name)):
+        if fn.decl or not fn.unit.startswith(tuple(units)) or not fn.ret.endswith("*"):
+            continue
+        if not any(i["op"] == "call" and i.get("callee") and i["callee"][0] == "g" and i["callee"][1] == "mmap" for i in fn.insts):
+            continue
+        for p in cm.paths(prog, fn, inline_helpers=False):
+            if p.kind != "ret" or p.ret is None:
+                continue
+            for e in p.calls():
+                if e.callee_name() != "mmap" or e.res is None or T.root(p.ret) != e.res:
+                    continue
+                n += 1
+                ok = outcome(p, e, "NOT-1") is True
+                chk.ob(rule, fn, "the result of mmap at %s is returned only after it was compared with MAP_FAILED" % fn.loc(e.iid), ok,
+                       loc=fn.loc(p.end_iid), detail="" if ok else "MAP_FAILED ((void *) -1) is returned as if it were a mapping: the callers "
+                       "test for NULL, so a refused oversized request is used as memory instead of failing with ENOMEM",
+                       path=None if ok else p, key="%s %s mmap-forwarded" % (rule, fn.sname))
+    chk.floor(rule, "return paths forwarding an mmap result", n, floor)
+
+
 def run(ctx, chk):
     tier = ctx.tier
     configs = [("native", {})]
@@ -245,7 +269,9 @@ def analyse(prog, chk, cname):
                         nsucc += 1
                         ok = outcome(p, e, pred, f2) is True
                         # an allocation whose result is merely forwarded as this function's result
-                        if not ok and retptr and T.root(p.ret) == e.res:
+                        # (only when both use the same failure encoding: a forwarded mmap() result carries MAP_FAILED == -1,
+                        # which no caller testing for NULL recognises)
+                        if not ok and retptr and T.root(p.ret) == e.res and pred == "NZ":
                             ok = True
                         chk.ob("R20.2", fn, "success exit: fallible step %s at %s succeeded on this path"
                                % (e.callee_name() or "slot", fn.loc(e.iid)) + tag, ok, loc=fn.loc(p.end_iid),
